@@ -52,12 +52,47 @@ TRUSTED = ["tools/elfspec.py decoder"]
 KEEP_FIRST = 1
 
 
+def gen_explicit_tail(rng, cls, enc):
+    """a PT_LOAD whose members carry explicit addresses although they occupy no file space: an empty section
+    and/or a NOBITS section placed with a gap after the data (the typical `.bss` at an aligned address).
+    The writer must keep such an address (seeded change c03-explicit-address-overwritten-nobits-empty);
+    gen_program avoids explicit NOBITS addresses because of finding F14, which concerns p_memsz (C04),
+    not what C03 compares."""
+    base = 0x400000 + rng.choice([0, 0x1000, 0x234])
+    n = rng.choice([5, 16, 33, 100])
+    secs = [{"name": b".text", "type": 1, "flags": 6, "align": rng.choice([1, 4, 16]), "entsize": 0, "link": 0, "info": 0,
+             "addr": base, "data": rnd_bytes(rng, n), "size": n}]
+    a = base + n
+    if rng.random() < 0.6:
+        a += rng.choice([0, 3, 0x30])
+        secs.append({"name": b".empty", "type": 1, "flags": 2, "align": rng.choice([1, 8]), "entsize": 0, "link": 0,
+                     "info": 0, "addr": a, "data": b"", "size": 0})
+    if rng.random() < 0.8 or len(secs) == 1:
+        a += rng.choice([1, 0x10, 0xf0, 0x1000])
+        secs.append({"name": b".bss", "type": 8, "flags": 3, "align": rng.choice([1, 16, 32]), "entsize": 0, "link": 0,
+                     "info": 0, "addr": a, "data": None, "size": rng.choice([4, 0x100, 5000])})
+    if rng.random() < 0.4:
+        m = rng.choice([8, 24])
+        secs.append({"name": b".data", "type": 1, "flags": 3, "align": 8, "entsize": 0, "link": 0, "info": 0,
+                     "addr": None, "data": rnd_bytes(rng, m), "size": m})
+    members = [i + 2 for i, s in enumerate(secs) if s["addr"] is not None]
+    segs = [{"type": 1, "flags": 6, "align": rng.choice([0, 0x10, 0x1000]), "vaddr": base, "paddr": base,
+             "members": members, "explicit": True}]
+    return {"cls": cls, "enc": enc,
+            "hdr": {"type": 2, "machine": 62, "flags": 0, "entry": base, "os_abi": 0, "abi_version": 0},
+            "secs": secs, "segs": segs}
+
+
 def gen_cases(rng, tier):
     n = 160 if tier == "quick" else 2000
     for i in range(n):
         cls, enc = CFGS[i % 4]
         p = gen_program(rng, cls, enc)
         yield {"id": f"p{i}", "lines": to_lines(p) + ["save"], "meta": {"prog": jsonable(p)}}
+    for i in range(n // 5):
+        cls, enc = CFGS[i % 4]
+        p = gen_explicit_tail(rng, cls, enc)
+        yield {"id": f"xt{i}", "lines": to_lines(p) + ["save"], "meta": {"prog": jsonable(p)}}
 
 
 def jsonable(p):
